@@ -182,7 +182,7 @@ impl<R: RealNumberInternalTrait> std::ops::Add<Number<R>> for Number<R> {
     type Output = Number<R>;
     fn add(self, rhs: Number<R>) -> Number<R> {
         match upcast_oprands((self, rhs)) {
-            NumberBinaryOperand::Integer(a, b) => Number::Integer(a + b),
+            NumberBinaryOperand::Integer(a, b) => Number::from_ratio(a as i128 + b as i128, 1),
             NumberBinaryOperand::Real(a, b) => Number::Real(a + b),
             NumberBinaryOperand::Rational(a1, a2, b1, b2) => {
                 let (a1, a2, b1, b2) = (a1 as i128, a2 as i128, b1 as i128, b2 as i128);
@@ -196,7 +196,7 @@ impl<R: RealNumberInternalTrait> std::ops::Sub<Number<R>> for Number<R> {
     type Output = Number<R>;
     fn sub(self, rhs: Number<R>) -> Number<R> {
         match upcast_oprands((self, rhs)) {
-            NumberBinaryOperand::Integer(a, b) => Number::Integer(a - b),
+            NumberBinaryOperand::Integer(a, b) => Number::from_ratio(a as i128 - b as i128, 1),
             NumberBinaryOperand::Real(a, b) => Number::Real(a - b),
             NumberBinaryOperand::Rational(a1, a2, b1, b2) => {
                 let (a1, a2, b1, b2) = (a1 as i128, a2 as i128, b1 as i128, b2 as i128);
@@ -210,7 +210,7 @@ impl<R: RealNumberInternalTrait> std::ops::Mul<Number<R>> for Number<R> {
     type Output = Number<R>;
     fn mul(self, rhs: Number<R>) -> Number<R> {
         match upcast_oprands((self, rhs)) {
-            NumberBinaryOperand::Integer(a, b) => Number::Integer(a * b),
+            NumberBinaryOperand::Integer(a, b) => Number::from_ratio(a as i128 * b as i128, 1),
             NumberBinaryOperand::Real(a, b) => Number::Real(a * b),
             NumberBinaryOperand::Rational(a1, a2, b1, b2) => {
                 Number::from_ratio(a1 as i128 * b1 as i128, a2 as i128 * b2 as i128)
@@ -244,7 +244,7 @@ impl<R: RealNumberInternalTrait> std::ops::Div<Number<R>> for Number<R> {
 impl<R: RealNumberInternalTrait> Number<R> {
     pub fn abs(self) -> Number<R> {
         match self {
-            Number::Integer(num) => Number::Integer(num.abs()),
+            Number::Integer(num) => Number::from_ratio((num as i128).abs(), 1),
             Number::Real(num) => Number::Real(num.abs()),
             Number::Rational(a, b) => Number::from_ratio((a as i128).abs(), (b as i128).abs()),
         }
